@@ -117,6 +117,7 @@ class ListObj:
         self.isset = isset
         self.label = label
         self.frozen = False     # being iterated
+        self.last = None        # term of the last element when known (set by append, consumed by l[-1] / pop())
 
     @property
     def cnt(self):
@@ -125,6 +126,7 @@ class ListObj:
     @cnt.setter
     def cnt(self, v):
         self._cnt = v
+        self.last = None
 
     @property
     def n(self):
@@ -137,6 +139,7 @@ class ListObj:
     def clone(self, memo):
         c = ListObj(self._cnt, self._n, self.elem, self.isset, self.label)
         c.frozen = self.frozen
+        c.last = self.last
         return c
 
 
@@ -179,6 +182,7 @@ class DictEntryList(ListObj):
         self.isset = False
         self.label = None
         self.frozen = False
+        self.last = None
 
     @property
     def cnt(self):
